@@ -805,6 +805,92 @@ fn conversions_conserve(out: &mut ShardOut, rng: &mut Rng) {
     }
 }
 
+
+/// C04 with payload shapes the tracked-key/tracked-value runs never have: a key that owns
+/// something next to a value without drop glue (and the reverse, and a zero-sized value).
+/// Nothing is kept by the harness, so every object still alive belongs to the cache: after
+/// `purge` and after dropping the cache the registry must be empty, and for the plain LRU
+/// the number of live objects must equal `len()` after every step.
+fn shape_run<K: std::hash::Hash + Eq, V, C: caches::Cache<K, V>>(mut c: C, mk: &dyn Fn(u32) -> K, mv: &dyn Fn(u64) -> V, rng: &mut Rng, nkeys: u64, nops: u64, tk: bool, tv: bool, exact: bool, what: &str) -> Option<String> {
+    let mut vid = 0u64;
+    for step in 0..nops {
+        let k = rng.below(nkeys) as u32;
+        match rng.below(10) {
+            0..=5 => {
+                vid += 1;
+                drop(c.put(mk(k), mv(vid)));
+            }
+            6..=7 => {
+                let q = mk(k);
+                let _ = c.get(&q);
+            }
+            8 => {
+                let q = mk(k);
+                drop(c.remove(&q));
+            }
+            _ => {
+                if rng.below(8) == 0 {
+                    c.purge();
+                    let (lk, lv) = reg_live();
+                    if lk != 0 || lv != 0 {
+                        return Some(format!("{}: purge at step {} left {} keys / {} values alive", what, step, lk, lv));
+                    }
+                }
+            }
+        }
+        if let Some(e) = reg_take_errors().first() {
+            return Some(format!("{}: {} at step {}", what, e, step));
+        }
+        let (lk, lv) = reg_live();
+        let n = c.len() as u64;
+        let bad_k = tk && (if exact { lk != n } else { lk < n });
+        let bad_v = tv && (if exact { lv != n } else { lv < n });
+        if bad_k || bad_v {
+            return Some(format!("{}: step {}: len() = {} but {} keys / {} values alive", what, step, n, lk, lv));
+        }
+    }
+    drop(c);
+    let (lk, lv) = reg_live();
+    if lk != 0 || lv != 0 {
+        return Some(format!("{}: {} keys / {} values still alive after the cache was dropped", what, lk, lv));
+    }
+    reg_take_errors().first().map(|e| format!("{}: {} when the cache was dropped", what, e))
+}
+
+fn payload_shapes_conserve(out: &mut ShardOut, rng: &mut Rng) {
+    use caches::{AdaptiveCache, RawLRU, SegmentedCache, TwoQueueCache, WTinyLFUCache};
+    macro_rules! shapes {
+        ($kind:expr, $exact:expr, $mk:expr) => {{
+            // (tracked key, plain value), (plain key, tracked value), (tracked key, zero-sized value)
+            for shape in 0..3u32 {
+                reg_reset();
+                let nkeys = rng.range(3, 14);
+                let nops = if cfg!(miri) { rng.range(10, 30) } else { rng.range(20, 120) };
+                let what = format!("{} shape {}", $kind, ["(TKey, u64)", "(u32, TVal)", "(TKey, ())"][shape as usize]);
+                let r = guarded(|| match shape {
+                    0 => $mk.and_then(|c| shape_run::<TKey, u64, _>(c, &|k| TKey::new(k), &|v| v, rng, nkeys, nops, true, false, $exact, &what)),
+                    1 => $mk.and_then(|c| shape_run::<u32, TVal, _>(c, &|k| k, &|v| TVal::new(v), rng, nkeys, nops, false, true, $exact, &what)),
+                    _ => $mk.and_then(|c| shape_run::<TKey, (), _>(c, &|k| TKey::new(k), &|_| (), rng, nkeys, nops, true, false, $exact, &what)),
+                });
+                out.cov.monitored += nops;
+                out.cov.triples.insert(format!("payload-shape|{}|{}", $kind, shape));
+                if let Ok(Some(d)) = r {
+                    out.add(simple_found("C04", "payload-shape-conservation", d));
+                    return;
+                }
+            }
+        }};
+    }
+    for _ in 0..(if cfg!(miri) { 1 } else { 6 }) {
+        let cap = rng.range(1, 6) as usize;
+        shapes!("lru", true, RawLRU::new(cap).ok());
+        shapes!("slru", false, SegmentedCache::new(cap, rng.range(1, 4) as usize).ok());
+        shapes!("twoq", false, TwoQueueCache::new(cap + 1).ok());
+        shapes!("arc", false, AdaptiveCache::new(cap).ok());
+        shapes!("wtlfu", false, WTinyLFUCache::new(cap + 2, 16).ok());
+    }
+}
+
 /// the engine-based check of one property on one shard
 pub fn engine_suite(ctx: &Ctx) -> ShardOut {
     let mut out = ShardOut::default();
@@ -817,6 +903,7 @@ pub fn engine_suite(ctx: &Ctx) -> ShardOut {
     if ctx.prop == "C04" {
         let mut r = Rng::new(mix(ctx.seed, 0xC04C) ^ ctx.shard);
         conversions_conserve(&mut out, &mut r);
+        payload_shapes_conserve(&mut out, &mut r);
     }
     if ctx.prop == "C06" && !cfg!(miri) {
         let mut r = Rng::new(mix(ctx.seed, 0xC062) ^ ctx.shard);
@@ -871,6 +958,20 @@ pub fn engine_suite(ctx: &Ctx) -> ShardOut {
                     record(&mut out, &cfg, kt, &ops, &opts, r.violations);
                 }
             }
+        }
+    }
+
+    // ---- 1b. admission between (nearly) saturated estimates
+    if prop == "C10" && !cfg!(miri) && ctx.variant != "valgrind" {
+        let uni: Vec<u32> = (0..10).collect();
+        for (i, (cfg, ops)) in crate::gen::saturation_grid().into_iter().enumerate() {
+            if i as u64 % ctx.nshards != ctx.shard % ctx.nshards {
+                continue;
+            }
+            let opts = RunOpts::new(props, uni.clone());
+            let r = run_history(&cfg, KeyType::Tracked, &ops, &opts, &mut out.cov);
+            out.notes.bump("directed:saturation-grid");
+            record(&mut out, &cfg, KeyType::Tracked, &ops, &opts, r.violations);
         }
     }
 
